@@ -1,0 +1,100 @@
+//! Verification hooks for property C55 (compiled only with `--cfg libp2p_verif`).
+//!
+//! Child module of `dns` (declared there with `#[path]`), so it can *call* the private
+//! packet-building functions; nothing here re-implements them.  Boundary types are plain:
+//! bytes in / bytes out, `(peer id bytes, addresses, ttl secs)` out.
+
+use std::{net::SocketAddr, time::Duration};
+
+use hickory_proto::{op::Message, rr::RData};
+use libp2p_core::Multiaddr;
+use libp2p_identity::PeerId;
+
+use super::super::query::MdnsPacket;
+
+/// `(MAX_TXT_VALUE_LENGTH, MAX_TXT_RECORD_SIZE, MAX_PACKET_SIZE, MAX_RECORDS_PER_PACKET)`
+pub fn consts() -> (usize, usize, usize, usize) {
+    (
+        super::MAX_TXT_VALUE_LENGTH,
+        super::MAX_TXT_RECORD_SIZE,
+        super::MAX_PACKET_SIZE,
+        super::MAX_RECORDS_PER_PACKET,
+    )
+}
+
+/// `dns::build_query_response`
+pub fn build_query_response(
+    id: u16,
+    peer_id: PeerId,
+    addresses: &[Multiaddr],
+    ttl: Duration,
+) -> Vec<Vec<u8>> {
+    super::build_query_response(id, peer_id, addresses.iter(), ttl)
+}
+
+/// `dns::append_txt_record` on an empty buffer: `Ok(record bytes)` or `Err(variant name)`.
+pub fn append_txt_record(name: &[u8], ttl_secs: u32, value: &str) -> Result<Vec<u8>, &'static str> {
+    let mut out = Vec::new();
+    match super::append_txt_record(&mut out, name, ttl_secs, value) {
+        Ok(()) => Ok(out),
+        Err(super::MdnsResponseError::TxtRecordTooLong) => Err("TxtRecordTooLong"),
+        Err(super::MdnsResponseError::NonAsciiMultiaddr) => Err("NonAsciiMultiaddr"),
+    }
+}
+
+/// `dns::decode_character_string`
+pub fn decode_character_string(from: &[u8]) -> Result<Vec<u8>, ()> {
+    super::decode_character_string(from).map(|c| c.into_owned())
+}
+
+/// `dns::duration_to_secs`
+pub fn duration_to_secs(d: Duration) -> u32 {
+    super::duration_to_secs(d)
+}
+
+/// Outcome of `MdnsPacket::new_from_bytes`.
+pub enum Parsed {
+    /// hickory rejected the packet
+    Err(String),
+    /// `Ok(None)`
+    Ignored,
+    Query(u16),
+    ServiceDiscovery(u16),
+    /// discovered peers in order: (peer id bytes, addresses, ttl seconds)
+    Response(Vec<(Vec<u8>, Vec<Multiaddr>, u64)>),
+}
+
+/// `MdnsPacket::new_from_bytes` (hickory `Message::from_vec` + `MdnsResponse::new` + `MdnsPeer::new`).
+pub fn parse_packet(buf: &[u8]) -> Parsed {
+    let from = SocketAddr::from(([192, 0, 2, 1], 5353));
+    match MdnsPacket::new_from_bytes(buf, from) {
+        Err(e) => Parsed::Err(e.to_string()),
+        Ok(None) => Parsed::Ignored,
+        Ok(Some(MdnsPacket::Query(q))) => Parsed::Query(q.query_id()),
+        Ok(Some(MdnsPacket::ServiceDiscovery(q))) => Parsed::ServiceDiscovery(q.query_id()),
+        Ok(Some(MdnsPacket::Response(r))) => Parsed::Response(
+            r.verif_peers()
+                .map(|p| (p.id().to_bytes(), p.addresses().clone(), p.ttl().as_secs()))
+                .collect(),
+        ),
+    }
+}
+
+/// All TXT character-strings of the additional section as hickory decodes them
+/// (`None` when hickory rejects the packet).  Used by the harness to build the
+/// text → `Multiaddr` oracle table handed to the Lean model.
+pub fn txt_strings(buf: &[u8]) -> Option<Vec<Vec<u8>>> {
+    let packet = Message::from_vec(buf).ok()?;
+    Some(
+        packet
+            .additionals
+            .iter()
+            .filter_map(|r| match &r.data {
+                RData::TXT(txt) => Some(txt),
+                _ => None,
+            })
+            .flat_map(|txt| txt.txt_data.iter())
+            .map(|s| s.to_vec())
+            .collect(),
+    )
+}
